@@ -231,7 +231,8 @@ def tail(s, n=3000):
     s = "\n".join(l for l in s.splitlines() if not re.match(r"^\d+\. Line ", l))
     i = s.find("Error:")
     if i >= 0:
-        return s[i:i + 1500] + "\n...\n" + s[-500:]
+        j = s.find("Error: The behavior up to this point", i)
+        return (s[i:j] if j > i else s[i:i + 1500])[:2500] + "\n...\n" + s[-300:]
     return s[-n:]
 
 
